@@ -60,6 +60,9 @@ def orderings(fabric, tier_all=False):
     return [tuple(zeros) + p for p in itertools.permutations(rest)]
 
 
+_DTYPE_DONE: set = set()
+
+
 def extract(ctx, fabric, regime, perm, N=2, inputs=None, setup=None):
     """Interpret pydrex.core.derivatives on symbolic inputs. Returns (interp, inputs, (dA, df))."""
     inp = inputs or Inputs(N)
@@ -104,11 +107,18 @@ def extract(ctx, fabric, regime, perm, N=2, inputs=None, setup=None):
     ph = enum(I, "pydrex.core.MineralPhase", FABRIC_PHASE[fabric])
     fb = enum(I, "pydrex.core.MineralFabric", fabric)
     rg = enum(I, "pydrex.core.DeformationRegime", regime)
-    out = I.call(f, (), dict(
+    kwargs = dict(
         regime=rg, phase=ph, fabric=fb, n_grains=N, orientations=inp.A.copy(), fractions=inp.f.copy(),
         strain_rate=inp.D.copy(), velocity_gradient=inp.L.copy(), deformation_gradient_spin=inp.W.copy(),
         stress_exponent=inp.p, deformation_exponent=inp.n, nucleation_efficiency=inp.lam,
-        gbm_mobility=inp.M, volume_fraction=inp.phi))
+        gbm_mobility=inp.M, volume_fraction=inp.phi)
+    t0 = len(I.trace)
+    out = I.call(f, (), dict(kwargs))
+    key = (ctx.prop, fabric, regime)
+    if key not in _DTYPE_DONE:
+        _DTYPE_DONE.add(key)
+        from .common import dtype_rule
+        dtype_rule(ctx, I, t0, list(kwargs.values()), "pydrex.core.derivatives", construct=f"derivatives:{fabric}:{regime}")
     return I, inp, out
 
 
